@@ -578,7 +578,9 @@ impl<K: Kmer, D: Debug> DebruijnGraph<K, D> {
         }
 
         for (target, dir, _) in node.r_edges() {
-            if target > node.node_id as usize {
+            // a right-side hairpin (right end onto its own right end) is seen from this side only
+            let self_hairpin = target == node.node_id as usize && matches!(dir, Dir::Right);
+            if target > node.node_id as usize || self_hairpin {
                 let to_dir = match dir {
                     Dir::Left => "+",
                     Dir::Right => "-",
